@@ -162,7 +162,7 @@ class Universe:
 
     def __init__(self, F, rng, mode='onshell', order=2, shift='full', lapse='full',
                  matter='T', vacuum=False, tetrad='quasi-Kinnersley', input_form='tensor',
-                 with_K=True, flat=False):
+                 with_K=True, flat=False, fluid_zero=()):
         self.F, self.rng, self.mode, self.order = F, rng, mode, order
         self.vacuum, self.tetrad = vacuum, tetrad
         self.memo = {}
@@ -241,8 +241,14 @@ class Universe:
             v = arr([J.rand(F, fo, rng, tv) for _ in R3])
             v2 = ein('i,j,ij->', v, v, gamma)
             W = 1 / (1 - v2).sqrt()         # W = (1 - v_i v^i)^(-1/2)
+            if 'v' in fluid_zero:
+                v = arr([c(0)] * 3)
+                W = c(1)
             self.fluid = dict(rho0=J.rand(F, fo, rng, tv), eps=J.rand(F, fo, rng, tv),
                               press=J.rand(F, fo, rng, tv), W=W, v=v)
+            for zk in fluid_zero:
+                if zk in ('rho0', 'eps', 'press'):
+                    self.fluid[zk] = c(0)
         elif matter == 'none':
             self.fluid = dict(rho0=c(0), eps=c(0), press=c(0), W=c(1), v=arr([c(0)] * 3))
         # matter == 'T': Tdown4 is an input: on-shell T := (G + Lambda g)/kappa, else free symmetric
